@@ -183,6 +183,13 @@ def g_result(res, g_ok):
     return f"(Ok {g_ok(res[1])})" if res[0] == "ok" else f'(Err "{res[1]}"%string)'
 
 
+def pick_seed(rng):
+    """A seed from new_random_seed's range [0, 2**31 - 1]; one in sixteen is an end of that range or next to it."""
+    if rng.random() < 1 / 16:
+        return rng.choice([0, 1, 2**31 - 1, 2**31 - 1, 2**31 - 2])
+    return rng.randrange(2**31)
+
+
 def g_seed(s):
     return g_opt(None if s is None else g_z(s))
 
@@ -623,11 +630,11 @@ def gen_layer_case(rng, max_n=12):
         prev = {"n": n, "gates": [["R", q] for q in range(n)]}
     else:
         prev = evqe.random_valid_layer(rng, n)
-    return {"kind": "layer", "n": n, "prev": prev, "seed": rng.randrange(2**31)}
+    return {"kind": "layer", "n": n, "prev": prev, "seed": pick_seed(rng)}
 
 
 def gen_individual_case(rng):
-    return {"kind": "individual", "n": rng.choice([1, 1, 2, 2, 3, 3, 4, 5, 6, 9, 12]), "n_layers": rng.randint(1, 6), "randomize": rng.random() < 0.5, "seed": rng.randrange(2**31)}
+    return {"kind": "individual", "n": rng.choice([1, 1, 2, 2, 3, 3, 4, 5, 6, 9, 12]), "n_layers": rng.randint(1, 6), "randomize": rng.random() < 0.5, "seed": pick_seed(rng)}
 
 
 def gen_append_case(rng):
@@ -636,11 +643,11 @@ def gen_append_case(rng):
     if rng.random() < 0.2:
         ind["layers"][-1] = {"n": n, "gates": [["I", q] for q in range(n)]}
         ind["values"] = [0.25] * sum(evqe.layer_n_parameters(l) for l in ind["layers"])
-    return {"kind": "append", "ind": ind, "n_layers": rng.choice([1, 2, 2, 3, 3, 4]), "randomize": rng.random() < 0.5, "seed": rng.randrange(2**31)}
+    return {"kind": "append", "ind": ind, "n_layers": rng.choice([1, 2, 2, 3, 3, 4]), "randomize": rng.random() < 0.5, "seed": pick_seed(rng)}
 
 
 def gen_population_case(rng):
-    return {"kind": "population", "n": rng.choice([1, 2, 3, 4, 6]), "n_layers": rng.randint(1, 4), "n_individuals": rng.randint(0, 5), "randomize": rng.random() < 0.5, "seed": rng.randrange(2**31)}
+    return {"kind": "population", "n": rng.choice([1, 2, 3, 4, 6]), "n_layers": rng.randint(1, 4), "n_individuals": rng.randint(0, 5), "randomize": rng.random() < 0.5, "seed": pick_seed(rng)}
 
 
 def edge_cases():
